@@ -278,7 +278,7 @@ func ruleSpawnReport(w *World, r *RuleResult) {
 							l := linearOf(ix.A[0])
 							e.Val.walk(func(x *T) bool {
 								if x.Op == "elem" && len(x.A) == 2 {
-									if b := stripConv(x.A[0]); b.Op == "sel" && b.S == "Code" {
+									if isCodeList(w, j.fn, x.A[0], 0) {
 										li := linearOf(x.A[1])
 										li.Coef[j.off]++
 										li.Atom[j.off] = tparam(j.off, nil)
